@@ -2,7 +2,7 @@
 import importlib
 import sys
 
-MODELS = ["vt.ref.canonjson"]
+MODELS = ["vt.ref.canonjson", "vt.ref.redact"]
 
 
 def main():
